@@ -200,7 +200,7 @@ pub fn gen_cfg(rng: &mut Rng) -> Cfg {
     if rng.chance(1, 10) {
         stored_last_n.reverse();
     }
-    Cfg {
+    let mut c = Cfg {
         last_n,
         with_prove_state: rng.chance(1, 2),
         from_genesis: rng.chance(1, 8),
@@ -209,7 +209,19 @@ pub fn gen_cfg(rng: &mut Rng) -> Cfg {
         last_number,
         last_td,
         stored_last_n,
+    };
+    // a peer whose proved header lags behind the store (another peer has moved the stored tip
+    // and the remembered headers on): the remembered headers lie partly or wholly ABOVE the
+    // start of this peer's request.  Decided from the configuration, not drawn (the random
+    // stream of the configurations stays what it was).
+    let h = fnv(&format!("{} {} {} {}", c.last_n, c.start_number, c.last_number, c.stored_last_n.len()));
+    if c.with_prove_state && !c.from_genesis && h % 4 == 0 {
+        let shift = 1 + (h / 4) % (2 * c.last_n + 3);
+        for n in c.stored_last_n.iter_mut() {
+            *n += shift;
+        }
     }
+    c
 }
 
 fn parse_cfg(line: &str) -> Option<Cfg> {
